@@ -574,6 +574,18 @@ def directed():
         ("later-iterable-shadows-param-list", ["cmp", call("len", ["comp", "list", N("w"), None,
                                                                    [[["x"], False, N("xss"), []], [["w"], False, call("sorted", N("x")), []]]]), [[">", K(5)]]],
          {"xss": [[1], [-1]], "x": [7]}, {"placement": {"x": "param", "xss": "param"}, "force_env": ["x"]}),
+        # the text of a call occurs outside a comprehension and again inside one whose loop variable has the name of
+        # its argument: same text, different values
+        ("same-call-text-under-shadowing",
+         ["bool", "and", [["cmp", call("abs", N("x")), [["<", K(100)]]],
+                          call("all", ["comp", "gen", ["cmp", call("inv", call("abs", N("x"))), [[">", K(50)]]], None,
+                                       [[["x"], False, N("xs"), []]]])]],
+         {"xs": [1, 4], "x": -3}, {"placement": {"x": "param", "xs": "param"}, "force_env": ["x"]}),
+        ("same-call-text-under-shadowing-list",
+         ["cmp", ["bin", "+", call("abs", N("x")),
+                  call("len", ["comp", "list", call("clamp", call("abs", N("x"))), None, [[["x"], False, N("xs"), []]]])],
+          [[">", K(100)]]],
+         {"xs": [-20, 4], "x": -3}, {"placement": {"x": "param", "xs": "param"}, "force_env": ["x"]}),
         # speculative evaluation inside a comprehension (the documented limitation, D12b)
         ("spec-elt", ["bool", "and", [call("all", gen_v(["cmp", ["bin", "//", K(10), N("n")], [[">", N("v")]]], N("xs"))), N("flag")]],
          {"xs": [], "n": 0, "flag": False}, {}),
